@@ -21,6 +21,9 @@ fn segs(s: &str) -> String {
 /// (display_width of the one-character string = unicode-width's value, 0 for control characters)
 /// and the byte ranges of the text segments `StyledStr::iter_text` yields.
 pub fn probe(a: &[Sx]) -> String {
+    if a.len() != 1 {
+        return "badcase".into();
+    }
     let s = a[0].string();
     let mut seen: Vec<char> = vec![];
     let mut ws: Vec<String> = vec![];
@@ -35,6 +38,9 @@ pub fn probe(a: &[Sx]) -> String {
 
 /// `(wrap x<utf8> WIDTH (widths ...))`: the widths table is for the model side only.
 pub fn wrap(a: &[Sx]) -> String {
+    if a.len() != 3 {
+        return "badcase".into();
+    }
     let s = a[0].string();
     let w = a[1].num() as usize;
     let out = hooks::wrap(&s, w);
@@ -50,6 +56,9 @@ pub fn wrap(a: &[Sx]) -> String {
 
 /// `(styled x<utf8 with ANSI sequences> WIDTH (widths ...) (segments (S E) ...))`
 pub fn styled(a: &[Sx]) -> String {
+    if a.len() != 4 {
+        return "badcase".into();
+    }
     let s = a[0].string();
     let w = a[1].num() as usize;
     let out = hooks::styled_wrap(&s, w);
@@ -61,6 +70,9 @@ pub fn styled(a: &[Sx]) -> String {
 /// `term_width(WIDTH)`: observation of the same code through the public API (not used by a stream;
 /// for replaying a finding by hand).
 pub fn about(a: &[Sx]) -> String {
+    if a.len() != 2 {
+        return "badcase".into();
+    }
     let s = a[0].string();
     let w = a[1].num() as usize;
     let mut cmd = clap::Command::new("p").about(s).after_help(a[0].string()).term_width(w).disable_help_flag(true);
